@@ -11,7 +11,8 @@
    (b) refusal              C02f_not_well_formed_is_error, C02f_no_language_is_error, C02f_refused_conversion (full)
    (c) shape of the tree    C02f_tree_shape, C02f_tree_shape_all_levels, C02f_element_nesting_bound (full; the bound is on
                             the ancestors of ELEMENT nodes, which is what the C checks: CDATA nodes are not depth-checked)
-   (d) balance              C02f_balance, C02f_document_balance, C02f_nesting_check_uses_parent_chain (full)
+   (d) balance              C02f_balance, C02f_document_balance, C02f_nesting_check_uses_parent_chain,
+                            C02f_nested_parse_error_nonzero (full)
    (e) names                C02f_names_step, C02f_names, C02f_names_from_events (full)
    markers                  C02f_outside_model_unreachable (full) *)
 From Coq Require Import List NArith String.
@@ -158,6 +159,12 @@ Theorem C02f_nesting_check_uses_parent_chain :
   (c_error (step main sub input c (EvStartElement name attrs idx)) = E_NESTING_TOO_DEEP <-> (1000 <= List.length (c_spine c))%nat).
 Proof. exact nesting_check_exact. Qed.
 Print Assumptions C02f_nesting_check_uses_parent_chain.
+
+(* the hypothesis on `sub` of the two balance theorems holds for the function itself (the nested parse of the C) *)
+Theorem C02f_nested_parse_error_nonzero :
+  forall main expat fuel input, tree_from_xml_fuel main expat fuel input <> inr WBXML_OK.
+Proof. exact tree_from_xml_fuel_inr_nonzero. Qed.
+Print Assumptions C02f_nested_parse_error_nonzero.
 
 (* ------------------------------------------------------------------ (e) names *)
 
